@@ -58,7 +58,8 @@ impl<'a> World<'a> {
         let age = self.cfg.age as u64;
         for dir in 0..2 {
             let before = self.wire[dir].len();
-            self.wire[dir].retain(|d| cur[0] - d.sent_at[0] < age && cur[1] - d.sent_at[1] < age);
+            // (saturating: a refused submission is taken back from the model after the call)
+            self.wire[dir].retain(|d| cur[0].saturating_sub(d.sent_at[0]) < age && cur[1].saturating_sub(d.sent_at[1]) < age);
             let aged = before - self.wire[dir].len();
             if aged > 0 {
                 ctx.count_n("fault_loss_aged", aged as u64);
@@ -433,7 +434,33 @@ impl<'a> World<'a> {
                 if self.s[to].closed {
                     return None;
                 }
+                {
+                    let log = &mut self.delivered_log[dir];
+                    if log.len() >= 60 {
+                        log.remove(12);
+                    }
+                    log.push(Dgram { bytes: d.bytes.clone(), sent_at: d.sent_at });
+                }
                 self.feed(ctx, to, &d.bytes)
+            }
+            NetOp::Redeliver { dir, pick } => {
+                let dir = (dir % 2) as usize;
+                ctx.t(18);
+                // the age bound applies to late copies as well
+                let cur = [self.s[0].sub_vital.len() as u64, self.s[1].sub_vital.len() as u64];
+                let age = self.cfg.age as u64;
+                self.delivered_log[dir].retain(|d| cur[0].saturating_sub(d.sent_at[0]) < age && cur[1].saturating_sub(d.sent_at[1]) < age);
+                let to = 1 - dir;
+                if self.delivered_log[dir].is_empty() || self.s[to].closed {
+                    return None;
+                }
+                let i = Self::pick_index(self.delivered_log[dir].len(), pick);
+                let bytes = self.delivered_log[dir][i].bytes.clone();
+                ctx.count("fault_duplication");
+                ctx.count("fault_late_duplicate");
+                ctx.fault_inflight = true;
+                ctx.logf(|| format!("network delivers a late copy of {} datagram #{} of its log ({} bytes)", ["A->B", "B->A"][dir], i, bytes.len()));
+                self.feed(ctx, to, &bytes)
             }
             NetOp::Drop { dir, pick } => {
                 let dir = (dir % 2) as usize;
@@ -553,6 +580,7 @@ impl<'a> World<'a> {
                 }
                 for dir in 0..2 {
                     self.wire[dir].clear();
+                    self.delivered_log[dir].clear();
                 }
                 for ep in 0..2 {
                     if ep == 1 && keep_b {
